@@ -15,9 +15,23 @@ func Delta(max uint32) *rapid.Generator[uint32] {
 			ok = append(ok, e)
 		}
 	}
+	// deltas whose encoding starts with a byte that looks like a status byte (F7, F0, FF, 90 ...):
+	// the byte after an event is a delta, never a status
+	statusLike := rapid.Custom(func(t *rapid.T) uint32 {
+		first := uint32(rapid.SampledFrom([]byte{0xF7, 0xF0, 0xFF, 0x90, 0x80, 0xC0, 0xF8}).Draw(t, "deltaFirstByte")) & 0x7F
+		groups := rapid.IntRange(1, 3).Draw(t, "deltaMoreGroups")
+		v := first
+		for i := 0; i < groups; i++ {
+			v = v<<7 | uint32(rapid.IntRange(0, 127).Draw(t, "deltaGroup"))
+		}
+		if first == 0 || v > max {
+			return min32(max, 15240)
+		}
+		return v
+	})
 	return rapid.OneOf(
 		rapid.Uint32Range(0, 4), rapid.Uint32Range(0, 4), rapid.Uint32Range(0, min32(max, 1000)),
-		rapid.SampledFrom(ok), rapid.Uint32Range(0, max),
+		rapid.SampledFrom(ok), rapid.Uint32Range(0, max), statusLike,
 	)
 }
 
@@ -284,6 +298,19 @@ func File(t *rapid.T, o FileOpts) smfref.File {
 		f.Chunks = append(f.Chunks, smfref.Chunk{IsTrack: true, Type: [4]byte{'M', 'T', 'r', 'k'}, Events: TrackEvents(t, o, 0x0FFFFFFF)})
 	}
 	alien("after")
+	// the usual layout of multi-track files: every track repeats the same tempo / signature event at
+	// tick 0 (equal payloads at equal ticks in different tracks)
+	if ntr >= 2 && rapid.IntRange(0, 5).Draw(t, "sameMetaInEveryTrack?") == 0 {
+		e := smfref.Event{Status: 0xFF, MetaType: 0x51, Data: []byte{0x07, 0xA1, 0x20}}
+		if rapid.Bool().Draw(t, "signatureInstead") {
+			e = smfref.Event{Status: 0xFF, MetaType: 0x58, Data: []byte{6, 3, 24, 8}}
+		}
+		for i := range f.Chunks {
+			if f.Chunks[i].IsTrack {
+				f.Chunks[i].Events = append([]smfref.Event{e, e}, f.Chunks[i].Events...)
+			}
+		}
+	}
 	return f
 }
 
